@@ -155,6 +155,17 @@ def ScaleNZ (g : Grp) (X : DVec ℝ) : Prop :=
   | .RxSO3 => nth X 4 ≠ 0
   | .Sim3 => nth X 7 ≠ 0
 
+/-- scale entry (RxSO3 / Sim3) is **positive** — the validity condition of a stored element (`torch.log` of a negative scale is NaN,
+while `Real.log x = log |x|`); vacuous for SO3 / SE3 -/
+def ScalePos (g : Grp) (X : DVec ℝ) : Prop :=
+  match g with
+  | .SO3 | .SE3 => True
+  | .RxSO3 => 0 < nth X 4
+  | .Sim3 => 0 < nth X 7
+
+theorem scalePos_nz {g : Grp} {X : DVec ℝ} (h : ScalePos g X) : ScaleNZ g X := by
+  cases g <;> simp only [ScalePos, ScaleNZ] at h ⊢ <;> first | trivial | exact ne_of_gt h
+
 /-- tangent of `matrix()`: row-major, entry `(i,j)` = `i`-th slot of the tangent of `Act(X, e_j)` (3×3 for SO3 via `Act`,
 4×4 for the other groups via `Act4`) -/
 noncomputable def matrixT (g : Grp) (X τ : DVec ℝ) : DVec ℝ :=
